@@ -770,7 +770,14 @@ impl Model {
             return Expect::Unspecified("copy(/)");
         }
         let root = if self.t.is_real_dir(&da) { join(&da, base_of(&sa)) } else { da.clone() };
-        if root == sa || is_under(&root, &sa) || is_under(&sa, &root) {
+        if root == sa {
+            // copied into its own directory: every entry would land on itself
+            return Expect::Outcomes(vec![
+                Outcome { res: Pat::Exact(Res::Unit), post: self.t.clone(), either: "copy(onto itself)=Ok" },
+                Outcome { res: Pat::AnyErr, post: self.t.clone(), either: "copy(onto itself)=Err" },
+            ]);
+        }
+        if is_under(&root, &sa) || is_under(&sa, &root) {
             return Expect::Unspecified("copy into itself / over an ancestor");
         }
         let (dir_mode, file_mode) = match cmode {
@@ -843,7 +850,11 @@ impl Model {
                             );
                         },
                         Some(e) => match e.kind {
-                            NKind::File(_) => e.kind = NKind::File(data.clone()),
+                            NKind::File(_) => {
+                                // content and mode are taken over (like std::fs::copy), the owner is kept
+                                e.kind = NKind::File(data.clone());
+                                e.mode = file_mode.map(|m| m | 0o100000).unwrap_or(n.mode);
+                            },
                             _ => return Expect::Unspecified("copy: file destination occupied by a non-file"),
                         },
                     }
